@@ -75,7 +75,7 @@ def do_copy(o, mech):
     return pickle.loads(pickle.dumps(o, protocol=p))
 
 
-MUTS = [["append", "a", 5], ["append", "c", 5], ["setitem", "a", 5], ["setitem", "c", 5],
+MUTS = [["update_nested", "a"], ["setitem_nested", "b"], ["append", "a", 5], ["append", "c", 5], ["setitem", "a", 5], ["setitem", "c", 5],
         ["delitem", "a"], ["delitem", "b"], ["pop"], ["insert3", 0, "b", 5], ["clear"],
         ["setdefault", "c", 5], ["update_dict", "a", 6], ["popk", "a"],
         ["extend_list", "b", 5], ["insert_before", "a", "c", 5, 0]]
@@ -106,6 +106,12 @@ def mutate(o, mut):
             elif mut[0] == "n_clear": v.clear()
             elif mut[0] == "n_insert": v.insert(0, "w", 9)
         return hit
+    if mut[0] == "update_nested":
+        o.update({mut[1]: impl.PVLGroup([("z", 1)])})
+        return True
+    if mut[0] == "setitem_nested":
+        o[mut[1]] = impl.PVLObject([("z", 2)])
+        return True
     C.apply(o, mut, KEYS, [5, 6])
     return True
 
@@ -122,7 +128,7 @@ def deep_invariant(o):
     inv = C.invariant(o)
     if inv:
         return inv
-    for k, v in list(getattr(o, "_OrderedMultiDict__items")):
+    for k, v in C._items_of(o):
         if isinstance(v, impl.OrderedMultiDict):
             inv = deep_invariant(v)
             if inv:
@@ -140,6 +146,11 @@ def check_case(case):
     """case: {cls, pairs, builder, mech, side, muts}.  Returns violation dicts."""
     cls, pairs, builder, mech = case["cls"], case["pairs"], case["builder"], case["mech"]
     o = build(cls, pairs, builder)
+    # the views of the original have been in use before it is copied
+    for view in (o.keys(), o.values(), o.items()):
+        list(view)
+        len(view)
+    o == o
     before = C.concrete(o)
     expect_items = [(k, C._cv(v)) for k, v in list(o)]
     try:
@@ -182,17 +193,47 @@ def check_case(case):
     side = case["side"]
     target, other = (c, o) if side == "copy" else (o, c)
     other_before = C.concrete(other)
+    other_public_before = public(other)
+    target_public_before = public(target)
     nested = any(m[0].startswith("n_") for m in muts)
     for m in muts:
         mutate(target, m)
     inv = deep_invariant(target)
     if inv:
         bad("mutated-side-inconsistent", inv)
+    if not nested and muts and public(target)[0] != [p for p in _expected_after(target_public_before[0], muts)]:
+        bad("mutated-side-views-wrong", "the views of the mutated side show %r, expected %r"
+            % (public(target)[0], _expected_after(target_public_before[0], muts)))
+    for side_name, obj, want in (("untouched side", other, other_public_before),):
+        got = public(obj)
+        if got != want:
+            bad("mutation-shows-through-views",
+                "the views of the %s changed: %r -> %r" % (side_name, want, got))
     if C.concrete(other) != other_before:
         bad("mutation-shows-through" + ("-nested" if nested else ""),
             "mutating the %s with %r changed the other side: %r -> %r"
             % (side, muts, other_before, C.concrete(other)))
     return out
+
+
+def public(o):
+    """what the public views show (keys, values by canonical form, len, equality with itself)"""
+    items = [(k, C._cv(v)) for k, v in list(o.items())]
+    return (items, list(o.keys()), [C._cv(v) for v in o.values()], len(o), [C._cv(p[1]) for p in list(o)])
+
+
+def _expected_after(items, muts):
+    """list model of the top-level mutations (values by canonical form)"""
+    from ..lib import listmodel
+    L = list(items)
+    for m in muts:
+        if m[0] == "update_nested":
+            listmodel._setitem(L, m[1], C._cv(impl.PVLGroup([("z", 1)])))
+        elif m[0] == "setitem_nested":
+            listmodel._setitem(L, m[1], C._cv(impl.PVLObject([("z", 2)])))
+        else:
+            listmodel.apply(L, m, KEYS, [5, 6])
+    return L
 
 
 def states(n_max, vals):
